@@ -1058,7 +1058,63 @@ func (e *Enc) loopEnv(li *loopInfo, st *State, bind map[ssa.Value]Val) *Env {
 		}
 		env.vars["$"+phi.Name()] = TV{T: v.T, Typ: phi.Type()}
 	}
+	// `rangeindex` is the hidden index of a range loop (-1 before the first element). A counting loop
+	// `for i := 0; ...; i++` over the same elements has no such variable: there it stands for i - 1, so that an
+	// invariant written for one form of the loop also reads on the other.
+	hasRI := false
+	for _, in := range li.header.Instrs {
+		if phi, ok := in.(*ssa.Phi); ok && phi.Comment == "rangeindex" {
+			hasRI = true
+		}
+	}
+	if !hasRI {
+		delete(env.vars, "rangeindex")
+		for _, in := range li.header.Instrs {
+			phi, ok := in.(*ssa.Phi)
+			if !ok {
+				break
+			}
+			if !countingPhi(phi, li) {
+				continue
+			}
+			v, ok := bind[phi]
+			if !ok {
+				v = e.vals[phi]
+			}
+			env.vars["rangeindex"] = TV{T: Sub(v.T, IntLit(1)), Typ: phi.Type()}
+			break
+		}
+	}
 	return env
+}
+
+// countingPhi: an integer loop variable that starts at the constant 0 and is incremented by one on every back edge.
+func countingPhi(phi *ssa.Phi, li *loopInfo) bool {
+	if b, ok := phi.Type().Underlying().(*types.Basic); !ok || b.Info()&types.IsInteger == 0 {
+		return false
+	}
+	sawInit, sawStep := false, false
+	for i, ed := range phi.Edges {
+		pred := phi.Block().Preds[i]
+		if li.blocks[pred] {
+			bo, ok := ed.(*ssa.BinOp)
+			if !ok || bo.Op != token.ADD {
+				return false
+			}
+			c, isC := bo.Y.(*ssa.Const)
+			if bo.X != ssa.Value(phi) || !isC || c.Value == nil || c.Value.ExactString() != "1" {
+				return false
+			}
+			sawStep = true
+		} else {
+			c, ok := ed.(*ssa.Const)
+			if !ok || c.Value == nil || c.Value.ExactString() != "0" {
+				return false
+			}
+			sawInit = true
+		}
+	}
+	return sawInit && sawStep
 }
 
 // nameSince: the instruction from which on the variable name holds value c (its first debug reference;
